@@ -23,16 +23,16 @@ use crate::report::{hex, parallel, Report};
 const NOW: u64 = 1_700_000_000;
 
 #[derive(Default)]
-struct UnitSet {
+pub(crate) struct UnitSet {
     seen: HashMap<([u8; 8], Vec<u8>), (&'static str, u64)>,
     /// units seen so far per (key, kind): the position of a unit within its own counter sequence
     per_key: HashMap<([u8; 8], &'static str), u64>,
-    count: u64,
+    pub(crate) count: u64,
 }
 
 impl UnitSet {
     /// Returns the colliding pair description if (key, nonce) was seen before.
-    fn add(&mut self, u: Unit) -> Option<(String, &'static str, &'static str)> {
+    pub(crate) fn add(&mut self, u: Unit) -> Option<(String, &'static str, &'static str)> {
         self.count += 1;
         let pos = {
             let e = self.per_key.entry((u.key_fp, u.what)).or_insert(0);
@@ -190,7 +190,7 @@ fn drain_diag(rep: &mut Report) {
     }
 }
 
-fn check_units(rep: &mut Report, what: &str, proto: &str, units: Vec<Unit>, set: &mut UnitSet, ctx: serde_json::Value) {
+pub(crate) fn check_units(rep: &mut Report, what: &str, proto: &str, units: Vec<Unit>, set: &mut UnitSet, ctx: serde_json::Value) {
     for u in units {
         if let Some((kn, a, b)) = set.add(u) {
             let mut pair = [a, b];
